@@ -84,3 +84,22 @@ pub fn replay(id: &str, part: &str, bytes: &[u8], case: &Value) -> Verdict {
         _ => Err(Failure::new("unknown-property", json!({"id": id}))),
     }
 }
+
+/// Entry used by the libFuzzer targets in /verif/fuzz: runs the property's oracle on raw bytes.
+pub fn fuzz_entry(id: &str, bytes: &[u8]) -> Verdict {
+    match id {
+        "C01" => c01::fuzz_entry(bytes),
+        "C02" => c02::fuzz_entry(bytes),
+        "C04" => c04::fuzz_entry(bytes),
+        "C11" => c11::fuzz_entry(bytes),
+        "C14" => c14::fuzz_entry(bytes),
+        "C15" => c15::fuzz_entry(bytes),
+        "C17" => c17::fuzz_entry(bytes),
+        _ => Ok(()),
+    }
+}
+
+/// Replays a raw libFuzzer artefact through the production-profile oracle.
+pub fn replay_fuzz_bytes(id: &str, bytes: &[u8]) -> Verdict {
+    fuzz_entry(id, bytes)
+}
